@@ -74,12 +74,19 @@ ReBase(re) == Nest3([rs |-> <<R(1, 2, 1, 1), R(2, 0, 0, 1)>>, hd |-> <<Hd(2, <<-
                     [rs |-> <<R(2, 1, 0, 0), R(1, 0, 0, 1)>>, hd |-> <<>>],
                     [rs |-> <<R(1, 0, 0, 1)>>, hd |-> <<>>], 1, 2, <<>>, re)
 ReCalls == { <<1, 0>>, <<2, 0>>, <<3, 0>>, <<4, 1>> }
-ReSites == { [m |-> 1, k |-> "E", id |-> 1], [m |-> 1, k |-> "X", id |-> 1], [m |-> 1, k |-> "A", id |-> Gid(1, 1, 1)],
+OwnSites == { [m |-> 1, k |-> "E", id |-> 1], [m |-> 1, k |-> "X", id |-> 1], [m |-> 1, k |-> "A", id |-> Gid(1, 1, 1)],
              [m |-> 1, k |-> "G", id |-> Gid(1, 1, 1)], [m |-> 1, k |-> "H", id |-> Hid(1, 1, 1)], [m |-> 1, k |-> "C", id |-> 0],
              [m |-> 2, k |-> "E", id |-> 2], [m |-> 2, k |-> "X", id |-> 1], [m |-> 2, k |-> "A", id |-> Gid(2, 1, 1)],
              [m |-> 2, k |-> "G", id |-> Gid(2, 1, 1)], [m |-> 2, k |-> "H", id |-> Hid(2, 1, 1)], [m |-> 2, k |-> "C", id |-> 0],
              [m |-> 3, k |-> "E", id |-> 1], [m |-> 3, k |-> "X", id |-> 1] }
-Reent(sites) == { ReBase(<< [m |-> x.m, k |-> x.k, id |-> x.id, c |-> c] >>) : x \in sites, c \in ReCalls }
+(* attempts from callbacks of a nested machine on its parent / grand-parent (made while that ancestor activates it) *)
+CrossSites == { [m |-> 2, k |-> "E", id |-> 1, t |-> 1], [m |-> 2, k |-> "X", id |-> 1, t |-> 1],
+                [m |-> 2, k |-> "A", id |-> Gid(2, 1, 1), t |-> 1], [m |-> 2, k |-> "G", id |-> Gid(2, 1, 1), t |-> 1],
+                [m |-> 2, k |-> "H", id |-> Hid(2, 1, 1), t |-> 1], [m |-> 2, k |-> "C", id |-> 0, t |-> 1],
+                [m |-> 3, k |-> "E", id |-> 1, t |-> 2], [m |-> 3, k |-> "E", id |-> 1, t |-> 1],
+                [m |-> 3, k |-> "X", id |-> 1, t |-> 1], [m |-> 3, k |-> "A", id |-> Gid(3, 1, 1), t |-> 2] }
+ReSites == { [m |-> x.m, k |-> x.k, id |-> x.id, t |-> x.m] : x \in OwnSites } \cup CrossSites
+Reent(sites) == { ReBase(<< [m |-> x.m, k |-> x.k, id |-> x.id, c |-> c, t |-> x.t] >>) : x \in sites, c \in ReCalls }
 
 Programs ==
   CASE Family = "flat2q" -> Flat(FlatRouteChoicesQ, 2)
